@@ -905,7 +905,7 @@ TARGETS = {
 
 def generate(module):
     tr = Translator()
-    imports, body = [], ""
+    imports, body = ["CPrelude"], ""
     for cf, fn, ln in TARGETS[module]:
         if cf == "import":                       # functions defined in another generated module, callable from here
             imports.append(fn)
@@ -915,14 +915,17 @@ def generate(module):
             continue
         body += tr.function(os.path.join(SRC, cf), fn, ln) + "\n"
     head = "".join(f"import Varint.Gen.{m}\n" for m in imports)
-    if imports:
-        return head + PRELUDE.replace(SX_DEF, "") + body + "end Varint.Gen.C\n"
-    return PRELUDE + body + "end Varint.Gen.C\n"
+    return head + PRELUDE.replace(SX_DEF, "") + body + "end Varint.Gen.C\n"
+
+
+def prelude_module():
+    return ("/- GENERATED by tools/c2lean.py — helper shared by every translated module. -/\n"
+            "namespace Varint.Gen.C\n\n" + SX_DEF + "end Varint.Gen.C\n")
 
 
 def failed_module(module, reason):
     """a module that does not build, so that exactly the theorems depending on the translation break"""
-    imports = [fn for cf, fn, ln in TARGETS[module] if cf == "import"]
+    imports = ["CPrelude"] + [fn for cf, fn, ln in TARGETS[module] if cf == "import"]
     tag = re.sub(r"[^A-Za-z0-9_]", "_", reason)[:120]
     return ("".join(f"import Varint.Gen.{m}\n" for m in imports) +
             f"/- GENERATED by tools/c2lean.py — TRANSLATION FAILED: {reason}\n"
